@@ -1,4 +1,6 @@
 """C09 - Metadata parsing, derived acquisition parameters and writing round-trip."""
+import copy
+
 import numpy as np
 from hypothesis import strategies as st
 
@@ -15,12 +17,29 @@ RULE = ("Two generators. (generic) files of key=value lines over the SpikeGLX gr
         "typed values of the generator, and read(write(read(text))) == read(text). (probe) the full probe grammar of "
         "vp.gens.meta (3A/3B1/3B2/NP2.1/NP2.4/NPultra/nidq, AP/LF, per-channel NP1 gains, channel subsets); oracle: "
         "version, type, nc, nsync, fs, ns, per-channel volts-per-bit for AP and LF, range_volts == independent "
-        "calibration oracle computed from the generator's parameters, plus the same round trip. Non-trivial = a value "
+        "calibration oracle computed from the generator's parameters, plus the same round trip. The probe cases are "
+        "multi-step on ONE dictionary object (case field `use`): parse, query every derived quantity through the "
+        "module-level helpers (order drawn, cheap helpers twice, the table-parsing ones twice in a drawn fifth of the "
+        "imec cases and in every nidq case) and through a Reader (on the metadata alone with up to 1e7 announced samples, "
+        "or - drawn - on a binary of exactly the announced size with 1..24 samples, including a read); then the used "
+        "dictionary and the Reader's own sr.meta must still equal a snapshot / a fresh parse of the same text, a helper "
+        "called twice must answer the same, and the round trip is made on the USED dictionaries: re-read == fresh parse, "
+        "derived quantities of the re-read dictionary == those of the original, a Reader on the rewritten file (drawn: "
+        "written from the parsed dictionary or from sr.meta) has the same version/type/nc/nsync/fs/ns/sample2volts. "
+        "Non-trivial = a value "
         "containing '=' or a non-integer float or a tiny float, or (probe) a non-uniform gain table with AP != LF. "
         "Distinct = distinct case hash.")
 ASSUMPTIONS = ["numeric values made only of [0-9,.] that are neither a scalar nor an integer list (e.g. '1,,2', ',') are "
                "outside the property's grammar and are not generated",
-               "exponent notation is never generated as input (SpikeGLX writes positional decimals)"]
+               "exponent notation is never generated as input (SpikeGLX writes positional decimals)",
+               "the getters of derived quantities are read-only: 'parse, write, parse gives an equal dictionary' is required "
+               "of a dictionary that has been used in between (callers such as NP2Converter write sr.meta of a Reader they "
+               "have read from); equality is type-strict (a float replaced by an equal int counts as a change)",
+               "Reader.open legitimately rewrites meta['fileTimeSecs'] when the size of the binary disagrees with the "
+               "metadata: the Reader is either built on the metadata alone (never opened) or on a binary of exactly the "
+               "announced size",
+               "Reader.read is asked for the sync traces only when the stream has a digital sync word (read_sync of a nidq "
+               "stream with analog channels and no digital word raises; reading is not this property's matter)"]
 BUDGET = {"quick": 16000, "thorough": 400000}
 
 _KEYCHARS = "abcdefghijklmnopqrstuvwxyzABCDEFGHIJKLMNOPQRSTUVWXYZ0123456789_.-:;()[] /"
@@ -81,7 +100,24 @@ def _probe(draw):
         spec = draw(gm.st_nidq(ns_range=(1, 10 ** 7)))
     else:
         spec = draw(gm.st_spec(allow_nosync=True, ns_range=(1, 10 ** 7), allow_offset=True))
-    return {"mode": "probe", "spec": spec}
+    nidq = spec["gen"] == "nidq"
+    # how the parsed dictionary is USED before it is compared / written back (see _USE_DEFAULT)
+    use = {"bin": draw(st.sampled_from([True, True, True, False] if nidq else [True, False])),
+           "ns": draw(st.integers(1, 24)), "nread": draw(st.integers(1, 30)),
+           "seed": draw(st.integers(0, 2 ** 32 - 1)), "order": draw(st.integers(0, 2 ** 32 - 1)),
+           "heavy": True if nidq else draw(st.sampled_from([False, False, False, False, True])),
+           "which": draw(st.sampled_from(["d1", "sr"]))}
+    return {"mode": "probe", "spec": spec, "use": use}
+
+
+# case field `use` (probe mode); cases recorded before the field existed run with this default
+#   bin    True: the metadata announce `ns` (1..24) samples instead of spec['ns'] and a binary of exactly that size lies next
+#          to it (Reader opened on it, `nread` samples read); False: metadata alone, Reader never opened
+#   seed   content of the binary; order: seed of the order in which the helpers are called on the parsed dictionary
+#   heavy  table-parsing helpers (_conversion_sample2v_from_meta, geometry_from_meta) are called a second time, geometry is
+#          queried on the parsed dictionary at all, and a Reader is built on the rewritten file
+#   which  dictionary the rewritten file of that Reader comes from: the parsed one ('d1') or the Reader's sr.meta ('sr')
+_USE_DEFAULT = {"bin": False, "ns": 8, "nread": 4, "seed": 0, "order": 0, "heavy": True, "which": "d1"}
 
 
 def strategy(tier):
@@ -96,15 +132,50 @@ def _expected_value(line):
     return [float(v) for v in line["text"].split(",")]
 
 
+def _short(v):
+    try:
+        r = repr(v)
+    except Exception:  # noqa
+        r = "<unprintable>"
+    return r if len(r) <= 120 else r[:117] + "..."
+
+
+def _same(a, b, where=""):
+    """Deep equality of what the code under test handed back (dict / list / tuple / array / scalar): same types, same
+    shapes, values compared exactly (NaN == NaN). Returns (ok, why) and never raises, whatever the objects are."""
+    try:
+        if isinstance(a, dict) and isinstance(b, dict):
+            if set(a.keys()) != set(b.keys()):
+                return False, f"{where}key sets differ: {sorted(map(str, set(a) ^ set(b)))[:5]}"
+            for k in a:
+                ok, why = _same(a[k], b[k], f"{where}key {k!r}: ")
+                if not ok:
+                    return ok, why
+            return True, ""
+        if isinstance(a, np.ndarray) or isinstance(b, np.ndarray):
+            if not (isinstance(a, np.ndarray) and isinstance(b, np.ndarray)) or a.shape != b.shape or a.dtype != b.dtype:
+                return False, f"{where}{_short(a)} ({type(a).__name__}) != {_short(b)} ({type(b).__name__})"
+            ok = bool(np.array_equal(a, b)) or (a.dtype.kind in "fc" and bool(np.array_equal(a, b, equal_nan=True)))
+            return ok, "" if ok else f"{where}arrays differ: {_short(a)} != {_short(b)}"
+        if type(a) is not type(b):
+            return False, f"{where}{_short(a)} ({type(a).__name__}) != {_short(b)} ({type(b).__name__})"
+        if isinstance(a, (list, tuple)):
+            if len(a) != len(b):
+                return False, f"{where}{_short(a)} != {_short(b)}"
+            for i, (x, y) in enumerate(zip(a, b)):
+                ok, why = _same(x, y, f"{where}[{i}] ")
+                if not ok:
+                    return ok, why
+            return True, ""
+        ok = bool(a == b) or (isinstance(a, float) and a != a and b != b)
+        return ok, "" if ok else f"{where}{_short(a)} ({type(a).__name__}) != {_short(b)} ({type(b).__name__})"
+    except Exception as e:  # noqa - objects that cannot be compared are not equal
+        return False, f"{where}comparison failed with {type(e).__name__}"
+
+
 def _eq(a, b):
-    """Dictionary equality that does not choke on arrays; floats compared exactly."""
-    if set(a.keys()) != set(b.keys()):
-        return False, f"key sets differ: {sorted(set(a) ^ set(b))[:5]}"
-    for k in a:
-        va, vb = a[k], b[k]
-        if type(va) is not type(vb) or va != vb:
-            return False, f"key {k!r}: {va!r} ({type(va).__name__}) != {vb!r} ({type(vb).__name__})"
-    return True, ""
+    """Dictionary equality that does not choke on arrays; floats compared exactly, nested lists included."""
+    return _same(dict(a), dict(b))
 
 
 def known_small_float(case, f):
@@ -120,20 +191,191 @@ def known_non_prefix_gain(case, f):
 KNOWN = {"small_float_exponent": known_small_float, "non_prefix_subset_gain": known_non_prefix_gain}
 
 
-def _roundtrip(ctx, sg, d, text_path, d1):
-    p2 = d / "rt.meta"
+def _roundtrip(ctx, sg, d, text_path, d1, out="rt.meta", fresh=None):
+    """write_meta_data(d1) -> read_meta_data must give a dictionary equal to d1 (and to `fresh`, a new parse of the
+    original text, when given). Returns the re-read dictionary, or None when there is nothing to go on with."""
+    p2 = d / out
     r = ctx.call("C09.write", sg.write_meta_data, d1, p2)
     if r is ctx.CRASH:
-        return
+        return None
     d2 = ctx.call("C09.reread", sg.read_meta_data, p2)
     if d2 is ctx.CRASH:
-        return
-    ok, why = _eq(dict(d1), dict(d2))
+        return None
+    if not ctx.check(isinstance(d2, dict), "C09.parse", lambda: f"read_meta_data returned a {type(d2).__name__}"):
+        return None
+    ok, why = _eq(d1, d2)
     if not ok:
         # classify the root cause: a float below 1e-4 written in exponent notation
         small = any(isinstance(v, float) and v != 0 and abs(v) < 1e-4 and isinstance(d2.get(k), str)
                     for k, v in d1.items())
         ctx.fail("C09.roundtrip.small_float" if small else "C09.roundtrip", why)
+        return None
+    if fresh is not None:
+        ok, why = _eq(fresh, d2)
+        if not ctx.check(ok, "C09.roundtrip", lambda: "dictionary written after use and parsed again differs from a fresh "
+                                                      "parse of the original text: " + why):
+            return None
+    return d2
+
+
+# read-only helpers that derive a quantity from a metadata dictionary; the last two parse the per-channel tables
+_CHEAP = ["_get_type_from_meta", "_get_sync_trace_indices_from_meta", "_get_analog_sync_trace_indices_from_meta",
+          "_get_nchannels_from_meta", "_get_fs_from_meta", "_get_neuropixel_version_from_meta",
+          "_get_neuropixel_major_version_from_meta", "_get_serial_number_from_meta", "_get_max_int_from_meta"]
+_CONV, _GEOM = "_conversion_sample2v_from_meta", "geometry_from_meta"
+
+
+def _query(ctx, sg, md, names, kind):
+    """Calls the helpers `names` on the dictionary md; {name: result} (crashed ones are left out)."""
+    out = {}
+    for name in names:
+        r = ctx.call(kind, lambda: getattr(sg, name)(md))
+        if r is not ctx.CRASH:
+            out[name] = r
+    return out
+
+
+def _compare(ctx, a, b, kind, what):
+    """Results of the same helpers on two occasions must be the same (keys of a that are missing in b crashed: reported
+    there)."""
+    for name in a:
+        if name in b:
+            ok, why = _same(a[name], b[name])
+            ctx.check(ok, kind, lambda: f"{name} {what}: {why}")
+
+
+def _reader_summary(ctx, sr, kind):
+    got = ctx.call(kind, lambda: {"version": sr.version, "type": sr.type, "nc": sr.nc, "nsync": sr.nsync, "fs": sr.fs,
+                                  "ns": sr.ns, "sample2volts": np.asarray(sr.sample2volts), "geometry": sr.geometry})
+    return None if got is ctx.CRASH else got
+
+
+def _probe_steps(case, ctx, sg, d, p, spec, use, stem, data, d1, snap, sr):
+    """Everything that happens once the file is parsed (d1, snapshot snap) and a Reader sr is built on it."""
+    gen = spec["gen"]
+    nc = gm.n_channels(spec)
+    typ = "nidq" if gen == "nidq" else spec["stream"]
+    nsync = spec["dw"] if gen == "nidq" else spec.get("nsync", 1)
+    ver = None if gen == "nidq" else gen
+    got = ctx.call("C09.derived", lambda: (sr.version, sr.type, sr.nc, sr.nsync, sr.fs, sr.ns))
+    if got is not ctx.CRASH:
+        exp = (ver, typ, nc, nsync, spec["fs"], spec["ns"])
+        ctx.check(got == exp, "C09.derived", lambda: f"(version,type,nc,nsync,fs,ns) = {got} != {exp}")
+    es2v = calib.s2v(spec)
+    s2v = ctx.call("C09.s2v", lambda: np.asarray(sr.sample2volts))
+    if s2v is not ctx.CRASH:
+        ctx.check(s2v.shape == es2v.shape and np.allclose(s2v, es2v, rtol=1e-6, atol=0), "C09.sample2volts",
+                  lambda: f"sample2volts {s2v[:3]}.. != range/maxint/gain {es2v[:3]}..")
+    rv = ctx.call("C09.range_volts", lambda: np.asarray(sr.range_volts))
+    if rv is not ctx.CRASH:
+        erv = calib.range_volts(spec)
+        ctx.check(rv.shape == erv.shape and np.allclose(rv, erv, rtol=1e-6, atol=0), "C09.range_volts",
+                  lambda: f"range_volts {rv[:3]}.. != {erv[:3]}..")
+    if use["bin"]:
+        # the reader is used for what it is made for; only the shape of what comes back is asserted here (reading is C01's
+        # matter). The sync traces are asked for when the stream has a digital sync word (read_sync is not defined by
+        # this property for streams without one: it raises for a nidq stream with analog channels only).
+        nread = min(int(use["nread"]), spec["ns"])
+        r = ctx.call("C09.use_read", sr.read, slice(0, int(use["nread"])), sync=nsync > 0)
+        if r is not ctx.CRASH:
+            arr = r[0] if nsync > 0 and isinstance(r, tuple) and len(r) == 2 else r
+            ctx.check(np.shape(arr) == (nread, nc), "C09.use_read",
+                      lambda: f"read(slice(0, {use['nread']})) of a ({spec['ns']}, {nc}) file returned {_short(r)}")
+
+    # ---- every derived quantity through the module-level helpers, on the SAME parsed dictionary, in a drawn order
+    heavy = bool(use["heavy"])
+    names = _CHEAP + [_CONV] + ([_GEOM] if heavy else [])
+    names = [names[i] for i in np.random.default_rng(int(use["order"])).permutation(len(names))]
+    r1 = _query(ctx, sg, d1, names, "C09.helper")
+    emaxint = spec.get("maxint") or (32768 if gen == "nidq" else 512)
+    mnma = spec["mn"] + spec["ma"] if gen == "nidq" else 0
+    expd = {"_get_type_from_meta": typ, "_get_sync_trace_indices_from_meta": list(range(nc - nsync, nc)),
+            "_get_analog_sync_trace_indices_from_meta": list(range(mnma, mnma + spec["xa"])) if gen == "nidq" else [],
+            "_get_nchannels_from_meta": nc, "_get_fs_from_meta": spec["fs"], "_get_neuropixel_version_from_meta": ver,
+            "_get_neuropixel_major_version_from_meta": None if gen == "nidq" else calib.major(gen),
+            "_get_max_int_from_meta": emaxint}
+    for name, e in expd.items():
+        if name in r1:
+            ok, why = _same(r1[name], e)
+            ctx.check(ok, "C09.derived", lambda: f"{name}(parsed dictionary): {why}")
+    conv = r1.get(_CONV)
+    if conv is not None and ctx.check(isinstance(conv, dict), "C09.derived", lambda: f"{_CONV} returned {_short(conv)}"):
+        if gen != "nidq":
+            for k in ("ap", "lf"):
+                e = calib.s2v(spec, k)
+                ctx.check(k in conv and np.shape(conv[k]) == e.shape and np.allclose(conv[k], e, rtol=1e-6, atol=0),
+                          "C09.gain_" + k, lambda: f"{k} volts-per-bit differ from the {k} gain column")
+        else:
+            ctx.check("nidq" in conv and np.shape(conv["nidq"]) == es2v.shape
+                      and np.allclose(conv["nidq"], es2v, rtol=1e-6, atol=0), "C09.sample2volts",
+                      lambda: f"{_CONV}(parsed dictionary)['nidq'] = {_short(conv.get('nidq'))} != {es2v}")
+    if gen != "nidq":
+        if gm.is_np1(gen) or gen == "NPultra":
+            g = np.array(gm.gains_of(spec)[:spec["n"]])
+            if np.unique(g[:, 0]).size > 1 and np.any(g[:, 0] != g[:, 1]):
+                ctx.nontrivial = True
+                ctx.label("nonuniform_gains")
+        if spec["n"] < spec["n_acq"]:
+            ctx.label("subset")
+        if spec.get("first_chan", 0) > 0:
+            ctx.label("non_prefix_subset")
+    if spec["ns"] / spec["fs"] < 1e-4:
+        ctx.label("tiny_float")
+    # (c) asked twice, a helper answers the same (the table-parsing ones are repeated in the `heavy` cases only)
+    again = [n for n in reversed(names) if heavy or n in _CHEAP]
+    _compare(ctx, r1, _query(ctx, sg, d1, again, "C09.helper"), "C09.unstable", "called twice on the same dictionary")
+    if heavy:
+        ctx.label("used_heavy")
+        geo = ctx.call("C09.helper", lambda: sr.geometry)
+        if geo is not ctx.CRASH and _GEOM in r1:
+            ok, why = _same(r1[_GEOM], geo)
+            ctx.check(ok, "C09.unstable", lambda: "geometry_from_meta(parsed dictionary) differs from the geometry of the "
+                                                  "Reader built on the same file: " + why)
+
+    # (a) using a dictionary does not change it: the parsed dictionary and the Reader's own one still equal the snapshot
+    # taken straight after parsing and a fresh parse of the same text
+    fresh = ctx.call("C09.read", sg.read_meta_data, p)
+    if fresh is ctx.CRASH or not ctx.check(isinstance(fresh, dict), "C09.parse", "second parse did not return a dict"):
+        return
+    ok, why = _same(snap, dict(fresh))
+    if not ctx.check(ok, "C09.parse", lambda: "two parses of the same file differ: " + why):
+        return
+    ok, why = _eq(snap, d1)
+    pristine = ctx.check(ok, "C09.meta_mutated", lambda: "the parsed dictionary changed while the derived quantities were "
+                                                         "queried on it (helpers " + ", ".join(names) + "): " + why)
+    srm = ctx.call("C09.reader", lambda: sr.meta)
+    sr_pristine = False
+    if srm is not ctx.CRASH and ctx.check(isinstance(srm, dict), "C09.reader", lambda: f"sr.meta is {_short(srm)}"):
+        ok, why = _eq(snap, srm)
+        sr_pristine = ctx.check(ok, "C09.meta_mutated", lambda: "Reader.meta differs from a fresh parse of its file after "
+                                                                "the properties were queried"
+                                                                + (" and samples read: " if use["bin"] else ": ") + why)
+
+    # (b) the round trip of the property on the USED dictionaries (a changed dictionary is reported above, once)
+    (d / "rt_d1").mkdir()
+    (d / "rt_sr").mkdir()
+    d2 = _roundtrip(ctx, sg, d, p, d1, out=f"rt_d1/{stem}.meta", fresh=fresh) if pristine else None
+    if d2 is not None:
+        r2 = _query(ctx, sg, d2, [n for n in names if n != _GEOM], "C09.rt_helper")
+        _compare(ctx, r1, r2, "C09.roundtrip.derived", "of the dictionary parsed from the rewritten file differs from the "
+                                                       "one of the original dictionary")
+    s2 = _roundtrip(ctx, sg, d, p, srm, out=f"rt_sr/{stem}.meta", fresh=fresh) if sr_pristine else None
+    which = "rt_sr" if use["which"] == "sr" else "rt_d1"
+    if heavy and (s2 if which == "rt_sr" else d2) is not None:
+        # a Reader on the rewritten file derives the same quantities as the Reader on the original one
+        ctx.label("used_reader_" + which)
+        before = _reader_summary(ctx, sr, "C09.derived")
+        f2 = d / which / (stem + ".meta")
+        if use["bin"]:
+            f2 = f2.with_suffix(".bin")
+            data.tofile(f2)
+        sr2 = ctx.call("C09.rt_reader", sg.Reader, f2)
+        if sr2 is not ctx.CRASH:
+            after = _reader_summary(ctx, sr2, "C09.rt_reader")
+            if before is not None and after is not None:
+                _compare(ctx, before, after, "C09.roundtrip.derived", "of the Reader on the rewritten file differs from the "
+                                                                      "one of the Reader on the original file")
+            ctx.call("C09.rt_reader", sr2.close)
 
 
 def run_case(case, ctx):
@@ -159,57 +401,42 @@ def run_case(case, ctx):
             d1 = ctx.call("C09.read", sg.read_meta_data, p)
             if d1 is ctx.CRASH:
                 return
-            ok, why = _eq(exp, dict(d1))
+            if not ctx.check(isinstance(d1, dict), "C09.parse", lambda: f"read_meta_data returned a {type(d1).__name__}"):
+                return
+            ok, why = _eq(exp, d1)
             ctx.check(ok, "C09.parse", lambda: "parsed dictionary differs from the generated values: " + why)
             _roundtrip(ctx, sg, d, p, d1)
             return
         # ---- probe grammar
         spec = case["spec"]
+        use = {**_USE_DEFAULT, **(case.get("use") or {})}
+        if use["bin"]:
+            spec = dict(spec, ns=int(use["ns"]))  # the announced size is the size of the binary written below
         gen = spec["gen"]
-        p = d / ("run_g0_t0.nidq.meta" if gen == "nidq" else f"run_g0_t0.imec0.{spec['stream']}.meta")
+        stem = "run_g0_t0.nidq" if gen == "nidq" else f"run_g0_t0.imec0.{spec['stream']}"
+        p = d / (stem + ".meta")
         p.write_text(gm.build_text(spec))
-        ctx.label("probe", gen)
-        d1 = ctx.call("C09.read", sg.read_meta_data, p)
-        if d1 is ctx.CRASH:
-            return
         nc = gm.n_channels(spec)
         typ = "nidq" if gen == "nidq" else spec["stream"]
         nsync = spec["dw"] if gen == "nidq" else spec.get("nsync", 1)
         ver = None if gen == "nidq" else gen
+        ctx.label("probe", gen, "used_" + typ)
+        data = None
+        if use["bin"]:
+            data = rec.make_data(spec["ns"], nc, int(use["seed"]), mode="full", nsync=nsync)
+            data.tofile(d / (stem + ".bin"))
+            ctx.label("used_bin")
+        d1 = ctx.call("C09.read", sg.read_meta_data, p)
+        if d1 is ctx.CRASH:
+            return
+        if not ctx.check(isinstance(d1, dict), "C09.parse", lambda: f"read_meta_data returned a {type(d1).__name__}"):
+            return
+        snap = copy.deepcopy(dict(d1))  # what the parser handed out, before anybody used it
         ctx.check(d1.get("neuropixelVersion") == ver, "C09.version", lambda: f"version {d1.get('neuropixelVersion')} != {ver}")
-        sr = ctx.call("C09.reader", sg.Reader, p)
+        sr = ctx.call("C09.reader", sg.Reader, d / (stem + ".bin") if use["bin"] else p)
         if sr is ctx.CRASH:
             return
-        got = ctx.call("C09.derived", lambda: (sr.version, sr.type, sr.nc, sr.nsync, sr.fs, sr.ns))
-        if got is not ctx.CRASH:
-            exp = (ver, typ, nc, nsync, spec["fs"], spec["ns"])
-            ctx.check(got == exp, "C09.derived", lambda: f"(version,type,nc,nsync,fs,ns) = {got} != {exp}")
-        es2v = calib.s2v(spec)
-        s2v = ctx.call("C09.s2v", lambda: np.asarray(sr.sample2volts))
-        if s2v is not ctx.CRASH:
-            ctx.check(s2v.shape == es2v.shape and np.allclose(s2v, es2v, rtol=1e-6, atol=0), "C09.sample2volts",
-                      lambda: f"sample2volts {s2v[:3]}.. != range/maxint/gain {es2v[:3]}..")
-        rv = ctx.call("C09.range_volts", lambda: np.asarray(sr.range_volts))
-        if rv is not ctx.CRASH:
-            erv = calib.range_volts(spec)
-            ctx.check(rv.shape == erv.shape and np.allclose(rv, erv, rtol=1e-6, atol=0), "C09.range_volts",
-                      lambda: f"range_volts {rv[:3]}.. != {erv[:3]}..")
-        if gen != "nidq":
-            conv = ctx.call("C09.conv", sg._conversion_sample2v_from_meta, d1)
-            if conv is not ctx.CRASH:
-                for k in ("ap", "lf"):
-                    e = calib.s2v(spec, k)
-                    ctx.check(np.shape(conv[k]) == e.shape and np.allclose(conv[k], e, rtol=1e-6, atol=0),
-                              "C09.gain_" + k, lambda: f"{k} volts-per-bit differ from the {k} gain column")
-            if gm.is_np1(gen) or gen == "NPultra":
-                g = np.array(gm.gains_of(spec)[:spec["n"]])
-                if np.unique(g[:, 0]).size > 1 and np.any(g[:, 0] != g[:, 1]):
-                    ctx.nontrivial = True
-                    ctx.label("nonuniform_gains")
-            if spec["n"] < spec["n_acq"]:
-                ctx.label("subset")
-            if spec.get("first_chan", 0) > 0:
-                ctx.label("non_prefix_subset")
-        if spec["ns"] / spec["fs"] < 1e-4:
-            ctx.label("tiny_float")
-        _roundtrip(ctx, sg, d, p, d1)
+        try:
+            _probe_steps(case, ctx, sg, d, p, spec, use, stem, data, d1, snap, sr)
+        finally:
+            ctx.call("C09.reader", sr.close)
